@@ -272,7 +272,30 @@ fn gen_hist(rng: &mut Rng) -> (u64, u64, u64) {
 
 // ---------------------------------------------------------------- direct entry points
 
+/// bit 12 of c: a stream longer than msm_chunks' hard-coded step of 2^20, with scalars that
+/// are zero except at a few positions (so that the sum stays cheap on both sides)
+const LONG_SPARSE: u64 = 1 << 12;
+
+fn long_sparse_inputs<G: Bridge>(op: &Op) -> (Vec<G::Affine>, Vec<G::ScalarField>) {
+    let mut rng = Rng::new(op.seed);
+    let n = op.a as usize;
+    let m = if op.b == u64::MAX { n } else { op.b as usize };
+    let g = G::generator();
+    let pool = G::normalize_batch(&[g, g.double(), g * G::ScalarField::rand(&mut rng), g * G::ScalarField::rand(&mut rng)]);
+    // four different bases, constant over stretches of 2^18: every chunk of 2^20 sees all of
+    // them, and the chunk boundary falls between stretches
+    // (the second chunk starts with a base that differs from the first chunk's first base)
+    let bases: Vec<G::Affine> = (0..n).map(|i| if i >= 1 << 20 { pool[1] } else { pool[(i >> 18) & 3] }).collect();
+    let scalars: Vec<G::ScalarField> = (0..m)
+        .map(|i| if i % 65521 == 7 || i + 3 >= m || (i >> 1) == (1 << 19) { edge_scalar::<G::ScalarField>(&mut rng) } else { G::ScalarField::zero() })
+        .collect();
+    (bases, scalars)
+}
+
 fn direct_inputs<G: Bridge>(op: &Op) -> (Vec<G::Affine>, Vec<G::ScalarField>) {
+    if op.c & LONG_SPARSE != 0 {
+        return long_sparse_inputs::<G>(op);
+    }
     let mut hop = op.clone();
     let n = op.a as usize;
     let m = if op.b == u64::MAX { n } else { op.b as usize };
@@ -313,7 +336,12 @@ fn expect_direct_g<G: Bridge>(op: &Op) -> Option<Vec<u8>> {
     }
     let k = b.len().min(s.len());
     let off = if (op.c >> 4) & 0xf == 3 { b.len() - k } else { 0 };
-    let pairs: Vec<_> = b[off..off + k].iter().zip(&s[..k]).map(|(p, x)| (G::coords(p), to_biguint(x))).collect();
+    let pairs: Vec<_> = b[off..off + k]
+        .iter()
+        .zip(&s[..k])
+        .filter(|(_, x)| !x.is_zero())
+        .map(|(p, x)| (G::coords(p), to_biguint(x)))
+        .collect();
     let sum: G::R = refmodel::naive_msm(&pairs)?;
     Some(ser(&G::from_coords(sum.to_affine()?)))
 }
@@ -341,6 +369,12 @@ fn gen_direct(rng: &mut Rng) -> (u64, u64, u64) {
     let group = *rng.pick(&[0u64, 0, 1, 2, 3, 4]);
     let variant = rng.below(6) as u64;
     let psize = rng.range(1, 12) as u64;
+    if rng.below(400) == 0 {
+        // msm_chunks walks its streams in steps of 2^20: one stream longer than that, now and then
+        let n = (1u64 << 20) + rng.range(1, 40) as u64;
+        let m = if rng.chance(1, 2) { u64::MAX } else { n - rng.below(3) as u64 };
+        return (n, m, *rng.pick(&[0u64, 4]) | 3 << 4 | LONG_SPARSE);
+    }
     (n as u64, m, group | variant << 4 | psize << 8)
 }
 
